@@ -860,7 +860,7 @@ impl<'a> G<'a> {
         }
 
         // c3. seeded random mixtures
-        let total = self.n(1500, 12000);
+        let total = self.n(1500, 24000);
         for i in 0..total {
             if i % 250 == 0 {
                 self.ctx.case(&format!("spec/random-{}", i / 250));
